@@ -209,6 +209,9 @@ func (m *l0Machine) nextTag(r int) sim.Val {
 
 func (m *l0Machine) genVal(rt *rapid.T, r int, label string) sim.Val {
 	if m.cfg.Tagged {
+		if m.cfg.Kind == sim.Document && rapid.IntRange(0, 5).Draw(rt, label+".nestedarr") == 0 {
+			return sim.Arr(m.nextTag(r), m.nextTag(r))
+		}
 		return m.nextTag(r)
 	}
 	depth := 0
@@ -434,6 +437,10 @@ func (m *l0Machine) genArrVals(rt *rapid.T, r int, label string, max int, view i
 					if s, ok := l[updPos+i].(string); ok {
 						m.tagN++
 						vs[i] = sim.S(fmt.Sprintf("%s#%d.%d", slotTag(s), r, m.tagN))
+					} else {
+						// the slot holds a nested array: replace it by another nested array so that no
+						// top-level slot tag is invented by an update
+						vs[i] = sim.Arr(m.nextTag(r), m.nextTag(r))
 					}
 				}
 			}
@@ -483,8 +490,15 @@ func (m *l0Machine) gen(rt *rapid.T) l0Action {
 		k := rapid.IntRange(0, 4).Draw(rt, "txlen")
 		tx := sim.Tx{Tag: fmt.Sprintf("tx%d", m.steps)}
 		for i := 0; i < k; i++ {
-			tx.Calls = append(tx.Calls, m.genCall(rt, r, view))
+			call := m.genCall(rt, r, view)
+			if m.cfg.Tagged && (call.M == "Update" || call.M == "UpdateManyInArray") {
+				// tagged updates derive their value from the slot they hit; inside a transaction
+				// earlier calls shift the positions, so the derivation would be stale
+				continue
+			}
+			tx.Calls = append(tx.Calls, call)
 		}
+		k = len(tx.Calls)
 		tx.FailAt = -1
 		if rapid.IntRange(0, 2).Draw(rt, "txfail") == 0 {
 			tx.FailAt = rapid.IntRange(0, k).Draw(rt, "failat")
